@@ -91,12 +91,13 @@ def fiddler_from_diff(
 
   The body of the returned function has three sections:
 
-  * The first section creates variables for any new shared values that are
-    added by the diff (i.e., values in `diff.new_shared_values`).
-  * The second section creates variables to act as aliases for values in the
+  * The first section creates variables to act as aliases for values in the
     in the input `Config`.  This ensures that we can still reference those
     values even after we've made mutations to the `Config` that might make
     them unreachable from their original location.
+  * The second section creates variables for any new shared values that are
+    added by the diff (i.e., values in `diff.new_shared_values`), each one
+    after the shared values it refers to.
   * The final section modifies the `Config` in-place, as described by
     `diff.changes`.  Changes are grouped by the parent object that they modify.
     This section contains one statement for each change.
@@ -190,12 +191,14 @@ def fiddler_from_diff(
       py_val_to_cst_converter.convert_py_val_to_cst,
       additional_converters=value_converters)
 
+  # The aliases only read from the input config, while new shared values may
+  # refer to them, so the aliases are created first.
   body = []
+  body += _cst_for_moved_value_variables(param_name, moved_value_names,
+                                         pyval_to_cst)
   body += _cst_for_new_shared_value_variables(diff.new_shared_values,
                                               new_shared_value_names,
                                               pyval_to_cst)
-  body += _cst_for_moved_value_variables(param_name, moved_value_names,
-                                         pyval_to_cst)
   body += _cst_for_changes(diff, param_name, moved_value_names, pyval_to_cst)
 
   fiddler = _cst_for_fiddler(func_name, param_name, body,
@@ -232,12 +235,39 @@ def _cst_for_new_shared_value_variables(
     values: Tuple[Any], names: List[str],
     pyval_to_cst: PyValToCstFunc) -> List[cst.CSTNode]:
   """Returns a list of `CSTNode`s for creating new shared value variables."""
+  # A shared value may refer to other shared values: define each one after the
+  # ones it refers to (and otherwise in name order).
+  def referenced_indices(value):
+    return [
+        node.target[0].index
+        for node, _ in daglish.iterate(value, memoized=False)
+        if isinstance(node, diffing.Reference)
+        and node.root == 'new_shared_values'
+    ]
+
+  order = []
+  visiting = set()
+
+  def visit(index):
+    if index in order or index in visiting:
+      return
+    visiting.add(index)
+    for dependency in sorted(
+        referenced_indices(values[index]), key=lambda i: names[i]
+    ):
+      visit(dependency)
+    visiting.discard(index)
+    order.append(index)
+
+  for index in sorted(range(len(values)), key=lambda i: names[i]):
+    visit(index)
+
   statements = []
-  for value, name in sorted(zip(values, names), key=lambda item: item[1]):
+  for index in order:
     statements.append(
         cst.Assign(
-            targets=[cst.AssignTarget(target=cst.Name(name))],
-            value=pyval_to_cst(value)))
+            targets=[cst.AssignTarget(target=cst.Name(names[index]))],
+            value=pyval_to_cst(values[index])))
   return [cst.SimpleStatementLine([stmt]) for stmt in statements]
 
 
